@@ -137,6 +137,17 @@ var (
 		OidPoint: 16, OidLseg: 32, OidBox: 32, OidLine: 24, OidCircle: 24,
 		OidTimeTZ: 12, OidInterval: 16, OidName: 64,
 	}
+
+	// elemAligns: pg_type.typalign in bytes of the array element types that are not
+	// int-aligned ('i' = 4 is the default, see arrayElemAlign).
+	elemAligns = map[int]int{
+		OidBool: 1, OidChar: 1, OidName: 1, OidUUID: 1,
+		OidInt2: 2, OidTid: 2,
+		OidInt8: 8, OidFloat8: 8, OidMoney: 8, OidPgLsn: 8,
+		OidTime: 8, OidTimeTZ: 8, OidTimestamp: 8, OidTimestampTZ: 8, OidInterval: 8,
+		OidPoint: 8, OidLseg: 8, OidPath: 8, OidBox: 8, OidPolygon: 8, OidLine: 8, OidCircle: 8,
+		OidTsRange: 8, OidTsTzRange: 8, OidInt8Range: 8,
+	}
 )
 
 // TypeName returns human-readable type name
@@ -642,13 +653,26 @@ func decodeArray(raw []byte, elemOid int) []interface{} {
 	return parseArrayElements(raw, int(dataStart), int(total), elemOid, elemLen, fixed, nullBitmap)
 }
 
+// arrayElemAlign returns the alignment (pg_type.typalign) of an array element type.
+func arrayElemAlign(elemOid int) int {
+	if a, ok := elemAligns[elemOid]; ok {
+		return a
+	}
+	return 4
+}
+
 func parseArrayElements(raw []byte, off, count, elemOid, elemLen int, fixed bool, nulls []byte) []interface{} {
+	elemAlign := arrayElemAlign(elemOid)
 	elems := make([]interface{}, 0, count)
 	for i := 0; i < count; i++ {
 		if nulls != nil && nulls[i/8]&(1<<(i%8)) == 0 {
 			elems = append(elems, nil)
 			continue
 		}
+		// Every stored element, fixed-width or varlena (short header included), starts on a
+		// multiple of its type's alignment counted from the start of the datum, which lies
+		// 4 bytes (the stripped varlena header) before raw[0].
+		off = align(off+4, elemAlign) - 4
 		if fixed {
 			if off+elemLen > len(raw) {
 				break
@@ -656,9 +680,6 @@ func parseArrayElements(raw []byte, off, count, elemOid, elemLen int, fixed bool
 			elems = append(elems, DecodeType(raw[off:off+elemLen], elemOid))
 			off += elemLen
 		} else {
-			if i > 0 {
-				off = align(off, 4)
-			}
 			if off >= len(raw) {
 				break
 			}
